@@ -155,8 +155,11 @@ var ownSeeds = map[string][]string{
 		"=novalue", ";;;", "a=b; Max-Age=-1; SameSite=None; Partitioned", "a=b; expires=bad"},
 	"uri": {"http://foobar.com/aaa/bb?cc#dd", "//host/p", "/a/../b/./c?x=1#f", "http://[::1]:80/x", "http://user:pw@host:99/p%20q?a=%zz", "*",
 		"http://[fe80::1%25en0]/", "https://host\\path", "/%2e%2e/%2F", "?q", "#f", "a b"},
-	"args":  {"a=b&c=d", "a=%20+%zz&&=x&y", "a&b&c", "%", "a=%", "a=%4", "k=v;k2=v2", "=", "&&&"},
-	"range": {"bytes=0-10", "bytes=-5", "bytes=5-", "bytes=10-5", "bytes=a-b", "bytes=99999999999999999999-", "bits=0-1", "bytes=0-0,1-2", "bytes=-", "bytes="},
+	"args": {"%", "%2", "%zz", "a=%", "a=%2", "a=%zz", "a=b%", "a=b%2", "a=b%4g", "%=%", "a%", "a%2", "%%", "%%%", "a=+%", "+", "=%", "&%", "a=b&%", "a=b&c=%2", "%00", "a=%00", "%u1234",
+		"a=b&c=d", "a=%20+%zz&&=x&y", "a&b&c", "%", "a=%", "a=%4", "k=v;k2=v2", "=", "&&&"},
+	"range": {"bytes", "bytes=-0", "bytes=0-", "bytes=0", "bytes=--1", "bytes=-1-", "bytes=1-2-3", "bytes=9223372036854775807-", "bytes=-9223372036854775807", "bytes=-9223372036854775808",
+		"bytes=0-9223372036854775807", "bytes=9223372036854775808-9223372036854775809", "bytes=18446744073709551615-", "bytes=-18446744073709551616", "bytes= 0-1", "bytes=0 -1", "bytes=0- 1", "BYTES=0-1",
+		"bytes=5-4", "bytes=100-", "bytes=-100", "bytes=99-100", "bytes=0-10", "bytes=-5", "bytes=5-", "bytes=10-5", "bytes=a-b", "bytes=99999999999999999999-", "bits=0-1", "bytes=0-0,1-2", "bytes=-", "bytes="},
 	"params": {"a;b=", "a; b=c", "a; b=\"", "a; b=\"c", "a; b=\"c\\", "a; b=\"\\", "a; b=\"c\\\"", "a; b=\"c\" ", "a; b=\"c\";", "a; b", "a;", "a; ", "a;  b=c", ";", "; =", ";b=", ";=c", "a; b=c; d=",
 		"a; b=c; d=\"", "a; b=\"\";c=", "a;b=c\\", "a; b==", "a; b=\x01", "a; \"b\"=c", "a; b=c d", "a; b=\"c\"d; e=f", "application/json; v=1; foo=bar; q=0.938; param=\"big fox\"", "a; b=", "a; b=\"", "a; b=\"\\", "a;b=c;", ";=;", "text/plain; foo=\"\\\"\\'\"", "x; y=\"z\"w"},
 	"multipart": {"--XX\r\nContent-Disposition: form-data; name=\"a\"\r\n\r\nv\r\n--XX--\r\n",
@@ -648,6 +651,7 @@ func run(d desc) hlib.Case {
 		var p string
 		var t bool
 		code := 0
+		special := ""
 		switch d.Op {
 		case "cookie":
 			code = 1
@@ -657,13 +661,33 @@ func run(d desc) hlib.Case {
 			p, t = guarded(func() { var u fasthttp.URI; _ = u.Parse(d.Host, d.In); _ = u.String(); u.QueryArgs().Len() })
 		case "args":
 			code = 3
-			p, t = guarded(func() { var a fasthttp.Args; a.ParseBytes(d.In); _ = a.String() })
+			var pairs []string
+			p, t = guarded(func() {
+				var a fasthttp.Args
+				a.ParseBytes(d.In)
+				a.VisitAll(func(k, v []byte) { pairs = append(pairs, hlib.Tuple(hlib.Hex(k), hlib.Hex(v))) })
+				_ = a.String()
+			})
+			special = hlib.App("KArgs", hlib.Hex(d.In), hlib.List(pairs), hlib.Bool(p != ""), hlib.Bool(t))
 		case "range":
 			code = 4
-			p, t = guarded(func() { _, _, _ = fasthttp.ParseByteRange(d.In, d.A) })
+			res := hlib.None()
+			p, t = guarded(func() {
+				if s0, e0, err := fasthttp.ParseByteRange(d.In, d.A); err == nil {
+					res = hlib.Some(hlib.Tuple(hlib.Z(int64(s0)), hlib.Z(int64(e0))))
+				}
+			})
+			special = hlib.App("KRange", hlib.Hex(d.In), hlib.Z(int64(d.A)), res, hlib.Bool(p != ""), hlib.Bool(t))
 		case "params":
 			code = 5
-			p, t = guarded(func() { fasthttp.VisitHeaderParams(d.In, func(k, v []byte) bool { return true }) })
+			var pairs []string
+			p, t = guarded(func() {
+				fasthttp.VisitHeaderParams(d.In, func(k, v []byte) bool {
+					pairs = append(pairs, hlib.Tuple(hlib.Hex(k), hlib.Hex(v)))
+					return true
+				})
+			})
+			special = hlib.App("KParams", hlib.Hex(d.In), hlib.List(pairs), hlib.Bool(p != ""), hlib.Bool(t))
 		case "requri":
 			code = 7
 			p, t = guarded(func() {
@@ -690,6 +714,9 @@ func run(d desc) hlib.Case {
 			panic("bad op " + d.Op)
 		}
 		c.Coq = hlib.App("KVal", hlib.N(uint64(code)), hlib.Z(int64(len(d.In))), hlib.Bool(p != ""), hlib.Bool(t))
+		if special != "" {
+			c.Coq = special
+		}
 		c.Sig = d.Op + "/" + strconv.Itoa(len(d.In)/8)
 		if p != "" {
 			c.Sig = d.Op + "/PANIC:" + firstWords(p)
